@@ -13,7 +13,8 @@ EXTENDS Paths, Json
 CONSTANTS MaxF      \* frames per dump
 
 StdFiles == <<LocalGOROOT \o <<"src","fa","x">>, LocalGOROOT \o <<"src","fb","y">>>>
-GpFiles  == <<LocalGOPATH1 \o <<"src","k","x">>, LocalGOPATH1 \o <<"pkg","mod","k","y">>, LocalGOPATH2 \o <<"src","u","z">>>>
+GpFiles  == <<LocalGOPATH1 \o <<"src","k","x">>, LocalGOPATH1 \o <<"pkg","mod","k","y">>, LocalGOPATH2 \o <<"src","u","z">>,
+              LocalGOPATH1 \o <<"src","k","y">>>>   \* the module-cache file's tail also exists under the same GOPATH's src
 ModFiles == <<ModRoot \o <<"x">>, ModRoot \o <<"fa","y">>, ModRoot2 \o <<"x">>>>
 AllLocal == StdFiles \o GpFiles \o ModFiles \o <<GoModFile, GoModFile2>>
 
@@ -25,6 +26,7 @@ Candidates(rg, rp) ==
     ModFiles[1], ModFiles[2], ModFiles[3],
     <<"S","k","y">>,                 \* unrelated
     <<"R","fa","x">>,                \* a suffix that exists under the local GOROOT/src, but no src in front of it
+    <<"H","src","k","fa","x">>,      \* a project kept below a directory named src; its tail exists under the local GOROOT/src
     <<"Q","testdir","testmain">>>>   \* go test's generated main
 
 VARIABLES phase, fs, rg, rp, frames, idx
